@@ -3,20 +3,22 @@ sys.path.insert(0, os.path.join(os.path.dirname(__file__), '..', 'common'))
 from vlib import H
 from st_probes import ST_PROBES
 ENT = ['dispatch_data_create', 'dispatch_data_create_concat', 'dispatch_data_create_subrange', 'dispatch_data_create_with_transform', 'dispatch_data_apply_f', 'dispatch_data_get_size', '__dispatch_tsd', '_dispatch_data_empty',
-       '_dispatch_data_format_type_none', '_dispatch_data_format_type_base32', '_dispatch_data_format_type_base32hex', '_dispatch_data_format_type_base64', '_dispatch_data_destructor_none']
+       '_dispatch_data_format_type_none', '_dispatch_data_format_type_base32', '_dispatch_data_format_type_base32hex', '_dispatch_data_format_type_base64', '_dispatch_data_destructor_none', '_dispatch_data_format_type_utf8', '_dispatch_data_format_type_utf16le', '_dispatch_data_format_type_utf16be']
 STUBS = ['_dispatch_calloc', 'calloc', 'malloc', 'realloc', 'free', '_os_object_alloc_realized', '_dispatch_bug', 'libdispatch_tsd_init', '_Block_copy', '_Block_release', '_dispatch_temporary_resource_shortage',
          'dispatch_async_f', '_dispatch_data_apply_client_callout', '_dispatch_object_finalize', '_dispatch_introspection_queue_dispose']
 ICALL = ['_dispatch_data_dispose', '_dispatch_xref_dispose', '_dispatch_dispose', '___dispatch_data_flatten_block_invoke', '___dispatch_transform_*_block_invoke*', '_dispatch_transform_from_base32', '_dispatch_transform_to_base32',
-         '_dispatch_transform_from_base32hex', '_dispatch_transform_to_base32hex', '_dispatch_transform_from_base64', '_dispatch_transform_to_base64']
-FN = {0: 'base32', 1: 'base32hex', 2: 'base64'}
+         '_dispatch_transform_from_base32hex', '_dispatch_transform_to_base32hex', '_dispatch_transform_from_base64', '_dispatch_transform_to_base64', '_dispatch_transform_from_utf16le', '_dispatch_transform_to_utf16le', '_dispatch_transform_from_utf16be', '_dispatch_transform_to_utf16be', '_dispatch_transform_to_utf8_without_bom']
+FN = {0: 'base32', 1: 'base32hex', 2: 'base64', 3: 'utf16le', 4: 'utf16be'}
 def TR(mode, fmt, n, split=0, split2=0, tiers=('quick', 'thorough'), timeout=900):
-    return H('TR_%s_%s_n%d%s%s' % ({0: 'dec', 1: 'rt', 2: 'enc'}[mode], FN[fmt], n, ('_s%d' % split) if split else '', ('_r%d' % split2) if split2 else ''), 'h_tr.c', ENT, stubs=STUBS, icall_only=ICALL,
+    return H('TR_%s_%s_n%d%s%s' % ({0: 'dec', 1: 'rt', 2: 'enc', 3: 'utf'}[mode], FN[fmt], n, ('_s%d' % split) if split else '', ('_r%d' % split2) if split2 else ''), 'h_tr.c', ENT, stubs=STUBS, icall_only=ICALL,
              noglobal=['_dispatch_queue_attrs', '_dispatch_mgr_q', '_dispatch_root_queues', '_dispatch_pthread_root_queue_contexts'], nt=1, heap=7936, pagewords=64, defines=['-DMODE=%d' % mode, '-DFMT=%d' % fmt, '-DN=%d' % n, '-DSPLIT=%d' % split, '-DSPLIT2=%d' % split2], probes=ST_PROBES,
-             unwind=30, timeout=timeout, tiers=tiers, mem_gb=20, paths=(mode == 0), mode=('stop' if mode == 0 else 'all'), witness=('twin' if mode == 0 else 'inline'), witness_any=True,
-             note='%s %s, %d symbolic input bytes%s%s' % ({0: 'decode of arbitrary text from', 1: 'round trip through', 2: 'real encoder vs reference decoder,'}[mode], FN[fmt], n, (', input split after %d bytes' % split) if split else '', (', encoded text split after %d characters' % split2) if split2 else ''))
+             unwind=30, timeout=timeout, tiers=tiers, mem_gb=20, paths=(mode in (0, 3)), mode=('stop' if mode in (0, 3) else 'all'), witness=('twin' if mode in (0, 3) else 'inline'), witness_any=True,
+             note='%s %s, %d symbolic input bytes%s%s' % ({0: 'decode of arbitrary text from', 1: 'round trip through', 2: 'real encoder vs reference decoder,', 3: 'well-formed UTF-8 round trip through'}[mode], FN[fmt], n, (', input split after %d bytes' % split) if split else '', (', encoded text split after %d characters' % split2) if split2 else ''))
 HARNESSES = [TR(0, f, 1) for f in (0, 2)] + [TR(0, 1, 1, tiers=('thorough',))] + [TR(0, f, 2, tiers=('thorough',), timeout=3000) for f in (0, 1, 2)]
 HARNESSES += [TR(2, f, n, split=sp) for f in (0, 1, 2) for n in (1, 2, 3, 5) for sp in ((0, 1) if n > 1 else (0,))] + [TR(2, f, n, split=sp, tiers=('thorough',)) for f in (0, 1, 2) for n in (4, 6) for sp in (0, 2, 3)]
 HARNESSES += [TR(0, 2, 4, split=2, tiers=('thorough',), timeout=3000)]
+# MODE 3 (UTF-8 <-> UTF-16 round trip, h_tr.c) is NOT registered: measured dead end (path mode: every range test on the decoded character forks, infeasible forks are not pruned -> 2^14 paths per character,
+# no verdict in 15 min for ONE character; merged mode: pointer advance depends on the bytes -> symbolic addresses, symbolic execution does not finish in 10 min for one character).  See DESIGN section 3.
 ASSUMPTIONS = ['input length and fragmentation fixed per query (bytes symbolic); allocation never fails; every heap access checked against the harness object table',
                'UTF-8/UTF-16 transforms are not covered by this check']
 LEVEL_TEXT = 'Base32 / Base32Hex / Base64 through the real transform.c + data.c with SYMBOLIC input bytes: (a) arbitrary text of 1 (thorough 2, and 4 split inside a group) characters decoded path by path: result NULL or of plausible size, no out-of-bounds heap access, no absurd allocation - this found the padding underflow fixed in /repo; (b) the real encoder on 1..6 symbolic bytes, unfragmented and split into two regions, against an independent RFC 4648 reference decoder written in the harness: length, alphabet, padding and recovered bytes.'
